@@ -13,7 +13,7 @@ class NonLinear(Exception):
 def linear(expr, env=None):
     """expr -> {var: coef, 1: const}; env maps names to expressions that
     replace them (single-definition locals such as r = n - 1)."""
-    env = env or {}
+    env = {k: v for k, v in (env or {}).items() if k != "__defs__"}
 
     def go(e, depth=0):
         if depth > 20:
@@ -57,14 +57,19 @@ def sub(a, b):
     return {k: v for k, v in out.items() if v != 0}
 
 
-def _alts(expr, fn, env):
+def _alts(expr, fn, env, depth=0):
     """expr as a list of linear forms whose `fn` (min / max) it is;
-    min(a, b) + c is distributed."""
+    min(a, b) + c is distributed; a name with one definition that is such
+    an expression stands for it."""
+    defs = (env or {}).get("__defs__", {})
+    if isinstance(expr, ast.Name) and expr.id in defs and depth < 6 \
+            and expr.id not in (env or {}):
+        return _alts(defs[expr.id], fn, env, depth + 1)
     if isinstance(expr, ast.Call) and isinstance(expr.func, ast.Name) \
             and expr.func.id == fn and not expr.keywords and expr.args:
         out = []
         for a in expr.args:
-            out.extend(_alts(a, fn, env))
+            out.extend(_alts(a, fn, env, depth))
         return out
     if isinstance(expr, ast.Call) and isinstance(expr.func, ast.Name) \
             and expr.func.id in ("min", "max"):
@@ -76,12 +81,42 @@ def _alts(expr, fn, env):
             c = linear(expr.right, env)
             s = 1 if isinstance(expr.op, ast.Add) else -1
             return [sub(x, {k: -s * v for k, v in c.items()})
-                    for x in _alts(expr.left, fn, env)]
+                    for x in _alts(expr.left, fn, env, depth)]
         if has_r and not has_l and isinstance(expr.op, ast.Add):
             c = linear(expr.left, env)
             return [sub(x, {k: -v for k, v in c.items()})
-                    for x in _alts(expr.right, fn, env)]
+                    for x in _alts(expr.right, fn, env, depth)]
     return [linear(expr, env)]
+
+
+def loop_constraints(target, it, env=None):
+    """constraints for `for target in it:` -- a range() loop over a name, or
+    itertools.product of ranges over a tuple of names.
+    -> (constraints, bound variable names)"""
+    if isinstance(target, ast.Name):
+        return range_constraints(target.id, it, env), {target.id}
+    if isinstance(target, ast.Tuple) and all(isinstance(e, ast.Name)
+                                             for e in target.elts) \
+            and isinstance(it, ast.Call) and (
+                (isinstance(it.func, ast.Attribute)
+                 and it.func.attr == "product")
+                or (isinstance(it.func, ast.Name)
+                    and it.func.id == "product")):
+        rngs = list(it.args)
+        rep = next((k.value for k in it.keywords if k.arg == "repeat"), None)
+        if rep is not None:
+            if not (isinstance(rep, ast.Constant) and isinstance(rep.value,
+                                                                 int)):
+                raise NonLinear("product(repeat=<non-literal>)")
+            rngs = rngs * rep.value
+        if any(k.arg != "repeat" for k in it.keywords) \
+                or len(rngs) != len(target.elts):
+            raise NonLinear("product() arity")
+        cons = []
+        for v, rg in zip(target.elts, rngs):
+            cons.extend(range_constraints(v.id, rg, env))
+        return cons, {v.id for v in target.elts}
+    raise NonLinear("loop form not understood")
 
 
 def range_constraints(var, call, env=None):
